@@ -3,6 +3,7 @@ CONSTANTS
  SinceAt = 6
  KeyByTxHash = FALSE
  SkipTimeOnHit = FALSE
+ SkipMaturityOnHit = FALSE
  InvalidateOnDelete = TRUE
  Warm = TRUE
  Emit = FALSE
